@@ -390,3 +390,31 @@ REG.add(Contract(f"{LRM}._get_rule_violation_detector", module=M_RM2, kind="meth
                  properties=["C05"]))
 REG.add(Contract(f"{LRM}._create_rule_violation_message_generator", module=M_RM2, kind="method", status="assumed", params=dict(self=LRM), returns="Opaque[MessageGenerator]",
                  note="message text only: irrelevant for the verdict (C03 covers the records)"))
+
+# ================================================================ C05: the eight buckets of a layer rule, and the verdict of LayerRuleMatcher.match
+REG.macro("layer_viol_buckets", ["mr", "b", "L", "expl", "nexpl", "r"],
+          "forall(Dep, lambda x: (x in r.should_not_violations) == (b.should_not and (not b.behavior_exception) and (not is_none(expl)) and realised_rel(mr, unwrap(expl), x) and cross_layer(L, x))) "
+          "and forall(Dep, lambda x: (x in r.should_violations) == (b.should and (not b.behavior_exception) and (not is_none(expl)) and layer_abstract_rel(mr, L, unwrap(expl), x))) "
+          "and forall(Dep, lambda x: (x in r.should_only_violations_by_no_import) == (b.should_only and (not b.behavior_exception) and (not is_none(expl)) and layer_abstract_rel(mr, L, unwrap(expl), x))) "
+          "and forall(Dep, lambda x: (x in r.should_only_violations_by_forbidden_import) == (b.should_only and (not b.behavior_exception) and (not is_none(nexpl)) and realised_rel_m(mr, unwrap(nexpl), x) and cross_layer(L, x))) "
+          "and forall(Dep, lambda x: (x in r.should_except_violations) == (b.should and b.behavior_exception and (not is_none(nexpl)) and layer_missing_rel(mr, L, unwrap(nexpl), x))) "
+          "and forall(Dep, lambda x: (x in r.should_only_except_violations_by_no_import) == (b.should_only and b.behavior_exception and (not is_none(nexpl)) and layer_missing_rel(mr, L, unwrap(nexpl), x))) "
+          "and forall(Dep, lambda x: (x in r.should_only_except_violations_by_forbidden_import) == (b.should_only and b.behavior_exception and (not is_none(expl)) and realised_rel(mr, unwrap(expl), x) and cross_layer(L, x))) "
+          "and forall(Dep, lambda x: (x in r.should_not_except_violations) == (b.should_not and b.behavior_exception and (not is_none(nexpl)) and realised_rel_m(mr, unwrap(nexpl), x) and cross_layer(L, x)))")
+# the inherited get_rule_violation, verified AGAIN with the layer detector as receiver (its bucket methods are the overriding ones)
+REG.add(Contract(f"{LD}.get_rule_violation", module="pytestarch.rule_assessment.rule_check.rule_violation_detector", qualname="RuleViolationBaseDetector.get_rule_violation", kind="method",
+                 params=dict(self=LD, explicitly_requested_dependencies="Opt[Dict[Dep,Bag[Dep]]]", not_explicitly_requested_dependencies="Opt[Dict[Mod,Bag[Dep]]]"), returns="RuleViolations",
+                 ensures=["layer_viol_buckets(self._module_requirement, self._behavior_requirement, self._layer_to_module_mapping, explicitly_requested_dependencies, not_explicitly_requested_dependencies, result)"],
+                 opaque=["layer_abstract_b", "layer_missing_b", "realised_b", "realised_m_b"], properties=["C05"]))
+# the regex -> modules table handed to the layer matcher: the union of what the two conversions (subjects, objects) found per regex
+REG.add(Contract(f"{LRM}._create_module_name_regex_conversion_mapping", module=M_RM2, qualname="RuleMatcher._create_module_name_regex_conversion_mapping", kind="method",
+                 params=dict(self=LRM), returns="Dict[Node,Bag[Mod]]",
+                 ensures=["forall(Node, lambda k: (k in result) == ((k in self._conversion_mapping_importers) or (k in self._conversion_mapping_importees)))",
+                          "forall(Node, Mod, lambda k, x: implies(k in result, (x in result[k]) == (((k in self._conversion_mapping_importers) and (x in self._conversion_mapping_importers[k])) or "
+                          "((k in self._conversion_mapping_importees) and (x in self._conversion_mapping_importees[k])))))"],
+                 locals=dict(result="Dict[Node,Bag[Mod]]", existing_values="Set[Mod]"),
+                 loops={0: dict(sig="for (key, values) in self._conversion_mapping_importees.items()", invariant=[
+                     "forall(Node, lambda k: (k in result) == ((k in self._conversion_mapping_importers) or ((k, self._conversion_mapping_importees[k]) in seen)))",
+                     "forall(Node, Mod, lambda k, x: implies(k in result, (x in result[k]) == (((k in self._conversion_mapping_importers) and (x in self._conversion_mapping_importers[k])) or "
+                     "(((k, self._conversion_mapping_importees[k]) in seen) and (x in self._conversion_mapping_importees[k])))))"])},
+                 properties=["C05"]))
